@@ -521,7 +521,7 @@ def _exprtk_call(f, args, trace):
     if f == "erf":
         return a.erf()
     if f == "erfc":
-        return 1.0 - a.erf()
+        return a.erfc()
     if f in ("min", "max"):
         b = args[1]
         pick_a = (a.v <= b.v) if f == "min" else (a.v >= b.v)
